@@ -145,7 +145,7 @@ func (b *GBuilt) goValue(t TypeRef, v Value) interface{} {
 	case "eint":
 		if td, ok := b.Cfg.Types[t.N]; ok {
 			for _, ev := range td.Values {
-				if ev.Internal == v.V {
+				if ev.Internal == v.V && (v.N == "" || ev.Ik == v.N) {
 					return enumInternal(ev)
 				}
 			}
